@@ -357,6 +357,8 @@ func checkC14(p *load.Program, r *kit.Report) {
 	r.Rule("FRAME-HELPERS", "readHeader reads 4+12+4+4 bytes and rejects a foreign magic before reading on; readMessage consumes exactly header.Length on success; DiscardInput reads n = (n/1024)·1024 + n%1024 bytes with full reads; handleMessage discards header.Length when no handler exists; handleExtended rewrites header.Length from the 12+8 byte extended header before installing the counted discard; readIncoming stops on every handler error", 7)
 	r.Rule("READ-AHEAD", "nothing in the node package wraps the connection (or a reader derived from it) in a bufio reader/scanner or reads it to EOF: a read-ahead buffer swallows the beginning of the next message", 1)
 	r.Rule("BLOCKING-OP", "no handler performs a blocking send on a channel held in a BitcoinNode field; the outgoing queue is drained until closed by sendOutgoing (flush loop on every early exit)", 2)
+	r.Rule("DRAIN-TO-CLOSE", "BlockDownloader.handleBlock returns only after it saw the tx channel closed (range exit or a flush loop that runs until close): the node pushes a block's txs with blocking sends from the message loop, which would otherwise park in the middle of the block", 1)
+	checkDrainToClose(p, r, "DRAIN-TO-CLOSE")
 	r.Assume("peer traffic is protocol-conformant (C14's own quantifier): for item loops, varint + count×item = declared length")
 
 	fns, byAccept := allHandlers(p)
@@ -775,4 +777,52 @@ func inBodyOf(f *ssa.Function, recv ssa.Instruction, ret *ssa.Return) bool {
 	}
 	d, _ := kit.DominatedByEdges(f, ret, okEdges, nil, func(token.Pos) string { return "" })
 	return d
+}
+
+// checkDrainToClose: the node's block handler feeds the downloader's handleBlock through an
+// unbuffered-in-effect channel with blocking sends, inside the message loop goroutine. handleBlock
+// must therefore return only after it has seen the channel closed (the `for range` exit, or the
+// flush loop `for range txChannel {}` on its error and cancel paths); a return while the node may
+// still be sending parks the message loop for ever in the middle of the block: the block is never
+// consumed to its declared length and no later message is answered.
+func checkDrainToClose(p *load.Program, r *kit.Report, rule string) {
+	f := fn(p, r, rule, R, "BlockDownloader.handleBlock")
+	if f == nil {
+		return
+	}
+	var ch *ssa.Parameter
+	for _, prm := range f.Params {
+		if c, ok := prm.Type().Underlying().(*types.Chan); ok && strings.Contains(c.Elem().String(), "MsgTx") {
+			ch = prm
+		}
+	}
+	pos := posOf(p, f.Blocks[0].Instrs[0])
+	if ch == nil {
+		r.Unknown(rule, "BlockDownloader.handleBlock/drain", pos, "tx channel parameter not found")
+		return
+	}
+	// closed edges: `v, ok := <-ch` tested false
+	closed := edgesOf(kit.FindGuards(f, func(c ssa.Value) (bool, bool) {
+		e, ok := c.(*ssa.Extract)
+		if !ok || e.Index != 1 {
+			return false, false
+		}
+		u, ok := e.Tuple.(*ssa.UnOp)
+		if !ok || u.Op != token.ARROW || !u.CommaOk || kit.Strip(u.X) != ssa.Value(ch) {
+			return false, false
+		}
+		return true, true
+	}), false)
+	bad := ""
+	n := 0
+	for _, ret := range kit.Returns(f) {
+		n++
+		if d, path := kit.DominatedByEdges(f, ret, closed, nil, p.Pos); !d {
+			bad = "handleBlock can return (" + retLabel(ret) + " at " + posOf(p, ret) + ") without having seen the tx channel closed (" + path + "): the node's message loop is still sending the block's txs with blocking sends and parks for ever; the rest of the block is never read and no later message is answered"
+		}
+	}
+	if len(closed) == 0 {
+		bad = "handleBlock never tests the tx channel for being closed"
+	}
+	r.Check(bad == "", rule, "BlockDownloader.handleBlock/drain-to-close", pos, fmt.Sprintf("all %d returns are behind a closed-channel edge", n), bad)
 }
